@@ -884,7 +884,7 @@ def run(ctx):
     unknown = sorted({t for d in DICTS for (_, _, t, _) in XMLF[d]} - FIX44_TYPES)
     if unknown:
         ctx.notes.append(f"dictionary datatypes outside the FIX 4.4 table of this check (all unconstrained): {unknown}")
-    # heavy items first for load balance; results are re-sorted below so order does not matter
+    # one item per target (chunk=1); violations are re-sorted shortest-input-first below
     res = ctx.pmap(_work, items, chunk=1)
     viols = []
     by_type = {}
